@@ -61,8 +61,8 @@ def run(ctx):
         conc = [(T, 0, 1000, 8), (P, 1000, 640, 8), (A, 1640, 360, 8)]
         steps = 40
     else:
-        hist = [(P, 0, 368, 23, []), (A, 368, 240, 20, [])]
-        conc = [(T, 0, 64, 4), (P, 64, 32, 4), (A, 96, 16, 4)]
+        hist = [(P, 0, 720, 36, []), (A, 720, 480, 30, [])]
+        conc = [(T, 0, 128, 8), (P, 128, 64, 8), (A, 192, 32, 8)]
         steps = 40
     for b, start, total, per, extra in hist:
         for s, n in _chunks(start, total, per):
